@@ -11,8 +11,9 @@ def matrix_md():
     for name in sorted(m):
         meta = json.load(open(f'/verif/seeded/{name}/meta.json'))
         row = m[name]
-        det = [c for c in IDS if row[c]['exit'] == 1]
-        und = [c for c in IDS if row[c]['exit'] not in (0, 1)]
+        det = [c for c in IDS if c in row and row[c]['exit'] == 1]
+        und = [c for c in IDS if c in row and row[c]['exit'] not in (0, 1)]
+        notrun = [c for c in IDS if c not in row]
         own = name.split('-')[0]
         key = (row[own]['keys'] or [''])[0]
         summ = (meta.get('summary') or '').replace('\n', ' ').replace('|', '/')
@@ -21,6 +22,8 @@ def matrix_md():
         d = ', '.join(f'**{c}**' if c == own else c for c in det) or '—'
         if und:
             d += ' (undecided: ' + ', '.join(und) + ')'
+        if notrun:
+            d += f' (only {", ".join(c for c in IDS if c in row)} run)'
         lines.append(f'| {name} | {text} | {d} | `{key}` |')
     own_ok = sum(1 for n in m if m[n][n.split('-')[0]]['exit'] == 1)
     lines.append('')
